@@ -8,7 +8,7 @@ from .common.httpgen import generate as _gen
 from .common.codec import hx, unhx
 
 PROPERTY = "C03"
-LEAN_MODULES = ["AioProps.C03"]
+LEAN_MODULES = ["AioProps.C03", "AioProps.C03Main"]
 THEOREMS = [
     "Aio.Http.findCRLF_append_stable",
     "Aio.Http.findSep_append_stable",
@@ -18,6 +18,14 @@ THEOREMS = [
     "Aio.Http.length_body_compositional",
     "Aio.Http.untilEof_compositional",
     "Aio.Http.feed_failed_latched",
+    "Aio.Http.feedLoop_acc",
+    "Aio.Http.feedLoop_fuel",
+    "Aio.Http.stepOnce_cont_append",
+    "Aio.Http.stepOnce_cont_inv",
+    "Aio.Http.stepOnce_stop_cases",
+    "Aio.Http.feedLoop_append",
+    "Aio.Http.payloadLaws_nonChunked",
+    "Aio.Http.feedLoop_append_nonChunked",
 ]
 RULE = ("streams: grammar-generated request pipelines (1-3 requests; CL and chunked bodies with extensions/trailers; "
         "origin/absolute/asterisk/authority targets) and responses (lax and strict), each also mutated by one of the "
